@@ -170,6 +170,19 @@ impl Cv {
                 }
                 my::Term::Tuple(name, fs)
             }
+            q::Term::String(_, segs, ..) if segs.iter().any(|s| matches!(s, q::StrSegment::Hole(_))) => {
+                let mut out = vec![];
+                for s in segs {
+                    match s {
+                        q::StrSegment::Text(b) => match String::from_utf8(b.clone()) {
+                            Ok(t) if t.chars().all(|c| c.is_ascii_alphanumeric() || " -_.,:=".contains(c)) => out.push(my::Seg::Text(t)),
+                            _ => return Err("string interpolation with text that needs escaping".into()),
+                        },
+                        q::StrSegment::Hole(e) => out.push(my::Seg::Hole(self.expr(e)?)),
+                    }
+                }
+                my::Term::Interp(out)
+            }
             q::Term::String(_, segs, ..) => {
                 let mut bytes = vec![];
                 for s in segs {
